@@ -140,9 +140,12 @@ func searchCases(o *vh.Opts, r *vh.Rng) []Case {
 		cr := r.Fork()
 		if len(seeds) == 0 {
 			var c Case
-			if cr.Chance(30) {
+			switch k := cr.Intn(100); {
+			case k < 30:
 				c = genBuiltCase(cr)
-			} else {
+			case k < 45:
+				c = genKeyCase(cr)
+			default:
 				c = genRawCase(cr)
 			}
 			c.Origin = "search-fresh"
